@@ -398,6 +398,27 @@ static json op_exprs(const json& req)
     return out;
 }
 
+// TigaPropertyBuilder strips the control wrapper from PropInfo::intermediate and records it in
+// PropInfo::type; the text of the whole query is that prefix plus str(intermediate).
+static std::string query_prefix(int qt)
+{
+    switch ((quant_t)qt) {
+    case quant_t::control_AF:
+    case quant_t::control_AUntil:
+    case quant_t::control_AG:
+    case quant_t::control_AWeakUntil:
+    case quant_t::control_ABuchi: return "control: ";
+    case quant_t::control_AB: return "control: A[] ";
+    case quant_t::EF_control_AF:
+    case quant_t::EF_control_AUntil:
+    case quant_t::EF_control_AG:
+    case quant_t::EF_control_AWeakUntil: return "E<> control: ";
+    case quant_t::control_opt_Def2_AF:
+    case quant_t::control_opt_Def2_AUntil: return "control_t*: ";
+    default: return "";
+    }
+}
+
 static json one_query(Document& doc, const std::string& text, const json& req)
 {
     json r;
@@ -433,6 +454,7 @@ static json one_query(Document& doc, const std::string& text, const json& req)
             r["str_what"] = g.value("what", "");
             return r;
         }
+        s = query_prefix(qt) + s;
         r["str"] = s;
         doc.clear_errors();
         doc.clear_warnings();
@@ -443,8 +465,10 @@ static json one_query(Document& doc, const std::string& text, const json& req)
             TigaPropertyBuilder pb(doc);
             parseProperty(s.c_str(), &pb);
             n2 = pb.getProperties().size();
-            if (n2 >= 1)
+            if (n2 >= 1) {
                 e2 = pb.getProperties().back().intermediate;
+                r["re_quant"] = (int)pb.getProperties().back().type;
+            }
         });
         r["re_exc"] = g2["exc"];
         r["re_err"] = dump_errors(doc.get_errors());
@@ -452,7 +476,7 @@ static json one_query(Document& doc, const std::string& text, const json& req)
         if (g2["exc"].is_null() && n2 == 1 && !doc.has_errors() && !e2.empty()) {
             r["re_sexpr"] = sexpr(e2, so);
             json g3;
-            guarded(g3, [&] { r["re_str"] = e2.str(); });
+            guarded(g3, [&] { r["re_str"] = query_prefix(r.value("re_quant", -1)) + e2.str(); });
             r["re_equal"] = e.equal(e2);
         }
     }
